@@ -325,7 +325,17 @@ class Main(pipeline.Stream):
                 cases.append(self._case("dispatcher", v, False, v, None, False, False,
                                         [["call", "echo", ["pos", [payload]]], ["call", "echo", ["kw", {"k": payload}]],
                                          ["batch", [["echo", ["pos", [payload]], False], ["echo", ["kw", {"a": payload}], True]]]]))
-            cases.append(self._case("tcp", 2.0, False, 2.0, None, False, False, [["call", "echo", ["pos", [payload]]]]))
+            for kind in ("tcp", "pooled", "unix"):
+                cases.append(self._case(kind, 2.0, False, 2.0, None, False, False,
+                                        [["call", "echo", ["pos", [payload]]], ["batch", [["echo", ["kw", {"a": payload}], False]]]]))
+        # the same MultiCall object used again after a batch that got no response (notifications only), and after one that did
+        for v in vers:
+            for kind in ("dispatcher", "tcp"):
+                cases.append(self._case(kind, v, True, v, None, True, True,
+                                        [["batch", [["echo", ["pos", [1]], True], ["ok", ["pos", []], True]]],
+                                         ["batch", [["echo", ["pos", [2]], False]]],
+                                         ["batch", [["echo", ["kw", {"k": 3}], False], ["none", ["pos", []], True]]],
+                                         ["batch", [["zero", ["pos", []], False]]]]))
         # every configuration combination of the real transports a few times
         n_real = {"tcp": 3, "pooled": 2, "unix": 2} if tier == "quick" else {"tcp": 12, "pooled": 8, "unix": 8}
         for kind, reps in n_real.items():
@@ -360,6 +370,7 @@ class Main(pipeline.Stream):
             kw["transport"] = tr
         proxy = self.J.ServerProxy(b.uri, **kw)
         outs, marks = [], []
+        mc_obj = None
         try:
             for op in case["ops"]:
                 n0 = len(b.log())
@@ -372,7 +383,9 @@ class Main(pipeline.Stream):
                     else:
                         outs.append(outcome(lambda: meth(**a[1])))
                 else:
-                    mc = self.J.MultiCall(proxy, config=mcfg)
+                    if mc_obj is None:
+                        mc_obj = self.J.MultiCall(proxy, config=mcfg)      # ONE MultiCall object per case, re-used by every batch
+                    mc = mc_obj
                     for (jm, ja, jn) in op[1]:
                         t = mc._notify if jn else mc
                         job = getattr(t, jm)
@@ -397,6 +410,10 @@ class Main(pipeline.Stream):
                                 break
                         return items
                     outs.append(outcome(run_batch))
+                    if outs[-1][0] == "exn":
+                        # a MultiCall whose call raised keeps its jobs (they would be sent again by a retry); the statement
+                        # (fault-free exchanges, JSON-representable results) says nothing about re-using it for other jobs
+                        mc_obj = None
                 marks.append((n0, len(b.log())))
         finally:
             try:
